@@ -109,6 +109,9 @@ func c20CLI(r *RunCtx) error {
 		if p.Chance(1, 5) {
 			path += "/"
 		}
+		if i%5 == 2 {
+			path = "/" + path // an empty first segment, as in an absolute path
+		}
 		ref := func(q string) string {
 			t := ""
 			for _, chunk := range strings.Split(strings.TrimSuffix(q, "/"), "/") {
